@@ -392,7 +392,9 @@ OUT_FORMS = ['absent', 'rel', 'rel_nested', 'rel_nosuffix', 'rel_oneletter', 're
              # characters that mean something to a formatting or configuration layer a path may be passed through ('%' to
              # %-formatting and configparser interpolation, braces to str.format, '$' to shells and templates), and names that
              # another kind of file usually has
-             'rel_percent', 'abs_percent', 'rel_braces', 'rel_logname', 'rel_jsonname']
+             'rel_percent', 'abs_percent', 'rel_braces', 'rel_logname', 'rel_jsonname',
+             # a legal name close to the longest a directory entry can have (255 bytes): anything built by adding to it does not fit
+             'rel_longname']
 CWD_DIRS = ['cwd0', 'cwd with space', 'deep/x/y/z', 'decoy', 'w', 'util 90% runs']
 ARGVS = [['caller'], ['pytest', '-ra', '-q'], ['prog', 'a.txt', 'b.out'], []]
 OUT_NAMES = {'rel': 'result.out', 'rel_nested': 'sub dir/nested.out', 'rel_nosuffix': 'r', 'rel_oneletter': 'o.t',
@@ -401,7 +403,7 @@ OUT_NAMES = {'rel': 'result.out', 'rel_nested': 'sub dir/nested.out', 'rel_nosuf
              'rel_upper': 'Report.OUT', 'rel_dotted': 'v1.2/res.v3.out', 'rel_txt': 'case.txt',
              'rel_linkdotdot': 'outlnk/../via.out', 'rel_dash': '-dash.out',
              'rel_percent': 'drawdown_5%.out', 'abs_percent': '100%s/%(x)s.out', 'rel_braces': '{case}_$HOME.out', 'rel_logname': 'run1.log',
-             'rel_jsonname': 'result.json.out'}
+             'rel_jsonname': 'result.json.out', 'rel_longname': 'long_' + 'r' * 236 + '.out'}
 # output paths at which no report can be written although the JSON next to it can (an existing directory, a dangling symbolic
 # link): whatever the run does, it must not claim success.  (A link to /dev/full would be a third, but reading it back - the
 # console echo - never ends; disk-full is covered by the injected ENOSPC.)
@@ -1270,6 +1272,10 @@ class Exec:
         k.armed = None
         if outcome == 'raised':
             op['_failed'] = True
+        rw = (entry, op['client'], op['slot'], sha(str(eff)))
+        if getattr(self, 'retry_watch', None) == rw and not fired:
+            self.probe('same_request_tried_again_after_a_faulted_attempt_failed')
+        self.retry_watch = rw if (fired and outcome == 'raised') else None
         # ---- ambient state (C08) -------------------------------------------------------
         self.check_ambient(op, argv_clause=entry in ('client', 'client_params', 'hip'))
         # ---- outcome class ---------------------------------------------------------------
@@ -1339,6 +1345,14 @@ class Exec:
                         report = f.read()
                 if not jp_exists:
                     self.V('C20', 'missing_json', f'{entry}_{op["out"]}', f'no JSON at {json_path.replace(self.sb, "$SB")}')
+                if op['out'] == 'rel_symlink' and entry == 'cli' and rp_exists:
+                    # the requested path designates a file through a symbolic link: the report is written to the file it designates
+                    # (what every open() of the path does) - the link is still a link afterwards and its target holds the report
+                    tgt_ = os.path.join(os.path.dirname(report_path), 'runs', 'r1.out')
+                    if not os.path.islink(report_path) or _file_sha(tgt_) != _file_sha(report_path):
+                        self.V('C20', 'wrong_output_path', 'cli_symlink_replaced',
+                               f"the output path {report_path.replace(self.sb, '$SB')} is a symbolic link to runs/r1.out: after the run "
+                               f"{'it is no longer a link' if not os.path.islink(report_path) else 'the file it designates does not hold the report'}")
             elif exp['outcome'] != 'ok' and not fired:
                 # a report may legitimately sit there from an earlier successful run; the failing run must not create or touch one
                 if rp_exists and _file_sha(report_path) != pre.get(report_path):
